@@ -197,6 +197,18 @@ Section Exec.
   Lemma ex_remove_custom : forall a e h h' r, exec vt W (ORemoveCustom a) e h = (h', r) -> kept h h'.
   Proof. intros a e h h' r H. unfold exec in H. apply grows_kept. eapply remove_custom_stix_grows; eauto. Qed.
 
+  Lemma ex_copy : forall a e h h' r, exec vt W (OCopy a) e h = (h', r) -> kept h h'.
+  Proof. intros a e h h' r H. unfold exec in H. apply grows_kept. eapply shallow_copy_grows; eauto. Qed.
+
+  Lemma ex_dedup : forall a e h h' r, exec vt W (ODeduplicate a) e h = (h', r) -> kept h h'.
+  Proof. intros a e h h' r H. unfold exec in H. apply grows_kept. eapply deduplicate_grows; eauto. Qed.
+
+  Lemma ex_clear_opts : forall a s mr lg e h h' r, exec vt W (OClearOpts a s mr lg) e h = (h', r) -> kept h h'.
+  Proof. intros a s mr lg e h h' r H. unfold exec in H. apply grows_kept. eapply granular_clear_f_grows; eauto. Qed.
+
+  Lemma ex_set_opts : forall a m s mr lg e h h' r, exec vt W (OSetOpts a m s mr lg) e h = (h', r) -> kept h h'.
+  Proof. intros a m s mr lg e h h' r H. unfold exec in H. apply grows_kept. eapply granular_set_f_grows; eauto. Qed.
+
   Lemma exec_kept : forall o e h h' r, public_op o = true -> exec vt W o e h = (h', r) -> kept h h'.
   Proof.
     intros o e h h' r Hp. destruct o.
@@ -208,6 +220,7 @@ Section Exec.
     - discriminate.
     - apply ex_setitem.
     - apply ex_gremove. - apply ex_gset. - apply ex_oset. - apply ex_api. - apply ex_remove_custom.
+    - apply ex_copy. - apply ex_dedup. - apply ex_clear_opts. - apply ex_set_opts.
   Qed.
 
   (* histories: any sequence of public operations *)
